@@ -563,3 +563,11 @@ var (
 )
 
 type PathError = os.PathError
+
+// ReusePid makes pid refer to process np from now on (the old process must be
+// gone): the kernel handed the number to an unrelated program.
+func (w *World) ReusePid(pid int, np *Proc) {
+	w.mu.Lock()
+	defer w.mu.Unlock()
+	w.procs[pid] = np
+}
